@@ -3,9 +3,4 @@
 package c12
 
 // built against the autoyield-instrumented scratch copy of the library
-import (
-	_ "verif/harness/hookauto"
-	"verif/harness/simsched"
-)
-
-func init() { simsched.AtomicYields = false }
+import _ "verif/harness/hookauto"
